@@ -26,6 +26,10 @@ Fixpoint bytes_eqb (a b : list byte) : bool :=
 
 (* TunnelIDFromString: first 16 bytes of the string, zero padded ([16]byte + copy) *)
 Definition wire_id (s : list byte) : list byte := firstn 16 s ++ repeat 0 (16 - length s).
+(* TunnelIDFromString after fixes/C10-wire-id-hash.diff: ids of at most 16 bytes verbatim (zero padded), longer ids get 16
+   bytes derived from the WHOLE string by a hash H (first 16 bytes of SHA-256 in the patch; an oracle here) *)
+Definition wire_id_h (H : list byte -> list byte) (s : list byte) : list byte :=
+  if (length s <=? 16)%nat then wire_id s else H s.
 (* TunnelIDToString: the bytes before the first zero byte *)
 Fixpoint id_to_string (id : list byte) : list byte :=
   match id with
